@@ -572,7 +572,8 @@ fn skip_uvlc(reader: &mut BitReader) -> Option<()> {
             return None;
         }
     }
-    if leading_zeros > 0 {
+    // AV1 spec 4.10.3: 32 leading zeros code the value 2^32 - 1 and no value bits follow
+    if leading_zeros > 0 && leading_zeros < 32 {
         reader.skip_bits(leading_zeros)?;
     }
     Some(())
